@@ -3,6 +3,8 @@
      wr   <p|t> <ctr> <fs> <op> <tid> <iid> <hexdata>     -> ok <ctr'> w1 w2 ..
      rd   <p|t> <ctr> <tid> f1 f2 ..                      -> ok <status> <body> <nleft> <ctr'> | err .. | crash
      acc  <p|t> <ctr> f1 f2 ..                            -> some <op> <tid> <iid> <body> | none
+     swr  <p|t> <ctr> <mtu> <mwwr> <op> <tid> <iid> <hex>  -> like wr, fragment size from det_fs (16-byte overhead iff t)
+     cwr  <op> <0|1,..> <iid,..> <hex,..>                 -> ok <hex> | crash   (write batch, per-position "known" flags)
      cenc <op> <iid,iid,..|.> <hex,hex,..|.>              -> ok <hex> | crash
      cdec <start> <hex>                                   -> ok r1 r2 ..   (r = b:<hex> | s:<n>)
      cexit <all|err> <nids> r1 r2 ..                      -> ok k:r ..
@@ -27,6 +29,13 @@ let handle = function
   | ["wr"; m; ctr; fs; op; tid; iid; d] ->
       res_str (fun (ws, c) -> dec_of_n c ^ " " ^ frs ws)
         (Pdu.ble_write (seal_of m) (n_of_dec ctr) (nat_of_int (int_of_string fs)) (ni op) (ni tid) (ni iid) (bytes_of_hex d))
+  | ["swr"; m; ctr; mtu; mwwr; op; tid; iid; d] ->
+      res_str (fun (ws, c) -> dec_of_n c ^ " " ^ frs ws)
+        (Pdu.ble_session_write Pdu.toy_seal (m <> "p") (n_of_dec ctr) (nat_of_int (int_of_string mtu)) (nat_of_int (int_of_string mwwr))
+           (ni op) (ni tid) (ni iid) (bytes_of_hex d))
+  | ["cwr"; op; flags; iids; datas] ->
+      res_str hex_of_bytes (Pdu.coap_write_batch (Stdlib.List.map (fun f -> f = "1") (csv flags)) (ni op)
+                              (Stdlib.List.map ni (csv iids)) (Stdlib.List.map bytes_of_hex (csv datas)))
   | "rd" :: m :: ctr :: tid :: fr ->
       res_str (fun (((st, body), rest), c) ->
           Printf.sprintf "%d %s %d %s" (int_of_n st) (hex_of_bytes body) (Stdlib.List.length rest) (dec_of_n c))
